@@ -29,6 +29,8 @@ type backend struct {
 type backends struct {
 	dir  string
 	list []*backend
+	m    *am.Machine
+	cfg  ambbolt.Config
 }
 
 // openBackends binds the three persistent histories to the machine (before the workload).
@@ -37,7 +39,7 @@ func openBackends(ctx context.Context, m *am.Machine, base amhist.BaseConfig, ba
 	if err != nil {
 		return nil, err
 	}
-	bs := &backends{dir: dir}
+	bs := &backends{dir: dir, m: m, cfg: ambbolt.Config{BaseConfig: base, QueueBatch: batch}}
 	add := func(name string) *backend {
 		b := &backend{name: name}
 		bs.list = append(bs.list, b)
@@ -177,6 +179,56 @@ func (bs *backends) compare(ctx context.Context, qs []askedQuery, bnd []time.Tim
 			if len(b.errs) > 0 {
 				run.Failures = append(run.Failures, fmt.Sprintf("backend %s errors: %s", b.name, strings.Join(b.errs, "; ")))
 			}
+			// the process may stop right after Sync: what a fresh process finds in the store
+			if b.name == "bbolt" && bs.m != nil {
+				bs.reopenBbolt(ctx, all, bnd, run)
+			}
 		}()
+	}
+}
+
+// reopenBbolt: a copy of the store file as it is on disk right after Sync (the state a process
+// stopped at this point leaves behind) is opened by a fresh history on a fresh machine of the same
+// id; it must hold the records that had been synced.
+func (bs *backends) reopenBbolt(ctx context.Context, synced []*amhist.MemoryRecord, bnd []time.Time, run *Run) {
+	src, err := os.ReadFile(bs.dir + "/bbolt.db")
+	if err != nil {
+		return
+	}
+	if err := os.WriteFile(bs.dir+"/crash.db", src, 0o600); err != nil {
+		return
+	}
+	db, err := ambbolt.NewDb(bs.dir + "/crash")
+	if err != nil {
+		run.Failures = append(run.Failures, "backend bbolt reopen: the store left behind after Sync cannot be opened, "+err.Error())
+		return
+	}
+	defer db.Close()
+	m2 := am.New(ctx, bs.m.Schema(), &am.Opts{Id: bs.m.Id()})
+	defer m2.Dispose()
+	if err := m2.VerifyStates(bs.m.StateNames()); err != nil {
+		return
+	}
+	var errs []string
+	mem, err := ambbolt.NewMemory(ctx, db, m2, bs.cfg, func(err error) { errs = append(errs, err.Error()) })
+	if err != nil {
+		run.Failures = append(run.Failures, "backend bbolt reopen: a fresh history cannot attach to the store left behind after Sync, "+err.Error())
+		return
+	}
+	got, err := mem.FindLatest(ctx, false, 0, amhist.Query{})
+	if err != nil {
+		run.Failures = append(run.Failures, "backend bbolt reopen: query failed, "+err.Error())
+		return
+	}
+	run.Reopened++
+	if len(got) != len(synced) {
+		run.Failures = append(run.Failures, fmt.Sprintf("backend bbolt reopen: a process stopped right after Sync leaves %d records behind, %d had been synced", len(got), len(synced)))
+		return
+	}
+	for i := range got {
+		if recStr(got[i], bnd) != recStr(synced[i], bnd) {
+			run.Failures = append(run.Failures, fmt.Sprintf("backend bbolt reopen: record %d differs after reopening: %s vs %s", i, recStr(got[i], bnd), recStr(synced[i], bnd)))
+			return
+		}
 	}
 }
